@@ -38,6 +38,8 @@ pub struct Opts {
     /// extra environment for cargo (history experiments of C20)
     pub env: Vec<(String, String)>,
     pub jobs: Option<usize>,
+    /// source of a library crate `xlib` (depends on entrait) that every member depends on: the other-crate access site of C13
+    pub xlib: Option<String>,
 }
 
 pub struct Batch {
@@ -110,7 +112,7 @@ impl Batch {
             dir.join("Cargo.toml"),
             format!(
                 "[workspace]\nresolver = \"2\"\nmembers = [{}]\n\n[profile.dev]\ndebug = 0\nopt-level = 0\nincremental = false\n",
-                members.iter().map(|m| format!("\"{m}\"")).collect::<Vec<_>>().join(", ")
+                members.iter().map(|m| format!("\"{m}\"")).chain(self.opts.xlib.iter().map(|_| "\"xlib\"".to_string())).collect::<Vec<_>>().join(", ")
             ),
         )
         .map_err(|e| e.to_string())?;
@@ -123,6 +125,14 @@ impl Batch {
             Some(o) => o.clone(),
             None => self.cases.keys().cloned().collect(),
         };
+        if let Some(xsrc) = &self.opts.xlib {
+            let xdir = dir.join("xlib");
+            std::fs::create_dir_all(xdir.join("src")).map_err(|e| e.to_string())?;
+            let features = if self.opts.feature_unimock { ", features = [\"unimock\"]" } else { "" };
+            std::fs::write(xdir.join("Cargo.toml"), format!("[package]\nname = \"xlib\"\nversion = \"0.0.0\"\nedition = \"2021\"\n\n[dependencies]\nentrait = {{ path = \"{}\"{features} }}\n", repo.display())).map_err(|e| e.to_string())?;
+            std::fs::write(xdir.join("src/lib.rs"), xsrc).map_err(|e| e.to_string())?;
+        }
+        let xlib_dep = if self.opts.xlib.is_some() { "xlib = { path = \"../xlib\" }\n" } else { "" };
         for (mi, m) in members.iter().enumerate() {
             let mdir = dir.join(m);
             std::fs::create_dir_all(mdir.join("src")).map_err(|e| e.to_string())?;
@@ -131,7 +141,7 @@ impl Batch {
             std::fs::write(
                 mdir.join("Cargo.toml"),
                 format!(
-                    "[package]\nname = \"{m}\"\nversion = \"0.0.0\"\nedition = \"2021\"\n\n[dependencies]\nentrait = {{ path = \"{}\"{features} }}\n{unimock_dep}mockall = \"0.12\"\nasync-trait = \"0.1\"\n",
+                    "[package]\nname = \"{m}\"\nversion = \"0.0.0\"\nedition = \"2021\"\n\n[dependencies]\nentrait = {{ path = \"{}\"{features} }}\n{unimock_dep}{xlib_dep}mockall = \"0.12\"\nasync-trait = \"0.1\"\n",
                     repo.display()
                 ),
             )
